@@ -381,6 +381,13 @@ def _r5(ctx, rep, se, cfg):
             r = cfg.reachable(cfg.entry, (), blocked)
             rep.check(n.id in r, "R5", key(se, None, "%s tested for %s requests" % (L, pt)), se, n.exprs[0],
                       "the limit test is not reached for this package type")
+            # ... on every way through: with the limit set, a request of this type is accepted (the control
+            # returns normally) only after the test - nothing lets an order round it
+            refusals = [x.id for x in cfg.live_nodes() if any(call_name(c) == "_on_error" for c in calls_in(x))]
+            rep.check(cfg.all_paths_pass(cfg.entry, cfg.exit, [n.id] + refusals, blocked), "R5",
+                      key(se, None, "%s cannot be bypassed for %s requests" % (L, pt)), se, n.exprs[0],
+                      "a path accepts the order without the limit test: %s" % cfg.fmt_path(
+                          cfg.path(cfg.entry, cfg.exit, [n.id] + refusals, blocked) or []))
         # value dependencies
         value = o[2]
         deps = _deps(se, value)
